@@ -42,6 +42,7 @@ IMPL = {
     "prog.determine": progressions.determine,
     "prog.subst": subst,
     "prog.substitute": substitute,
+    "prog.substitute_last": lambda prog, d: [progressions.substitute(list(prog), -1, d), progressions.substitute(list(prog), len(prog) - 1, d)],
     "prog.roundtrip": lambda x: progressions.tuple_to_string(progressions.parse_string(x)),
     "prog.det_inverse": lambda chord, k: [progressions.determine(list(chord), k, True),
                                           [copy.deepcopy(progressions.to_chords([n], k)) for n in progressions.determine(list(chord), k, True)]],
@@ -116,6 +117,8 @@ def cases(tier, rng):
                     if d == 2 and (abs(acc) > 1 or sf not in ("", "7", "m", "dim")):
                         continue
                     yield Case("prog.substitute", [[p, "IV"], 0, d], "substitute/depth%d" % d, kind=("substitute",))
+                    if acc == 0 and sf in ("", "7", "m", "dim"):
+                        yield Case("prog.substitute_last", [["IV", p], d], "substitute/last/depth%d" % d, model=False, kind=("substitute_last",))
     for x in ["i#v", "#b#I", "vIi7", "IIb", "ivm7b5", "bbbbbbbVI", "#######I7", "Vsus4", "viidim7", "xyz"]:
         yield Case("prog.parse_string", [x], "parse/odd", kind=("parseodd",))
     for r in NUM:
@@ -237,6 +240,10 @@ def oracle(c, obs):
                     if not subs or len(set(orig) & set(subs[0])) < 2:
                         return "harmonic substitute %r shares fewer than two notes with the original triad" % r
         return None
+    if fn == "prog.substitute_last":
+        if isinstance(obs, Err):
+            return "substitute raised %s" % obs.name
+        return None if obs[0] == obs[1] else "substitute(progression, -1) differs from substitute(progression, len - 1): the same chord is addressed"
     if fn == "prog.substitute":
         if isinstance(obs, Err):
             return "substitute raised %s" % obs.name
